@@ -31,6 +31,7 @@ RULE += (' Also: tee sources failing once at their k-th use (the fetching child 
 RULE += (' Also: iterators drawn from async iterables are owned by the tool that drew them.')
 RULE += (' Also: end-of-iteration exceptions raised by user callables or thrown in by the consumer.')
 RULE += (' Also: a class-based source that reports its remaining length (sized shortcuts still own and close it).')
+RULE += (' Also: one of several inputs that is not iterable at all - the tool that reports it has ended and lets go of the others; groupby keys failing with Stop(Async)Iteration / GeneratorExit / RuntimeError.')
 ASSUMPTIONS = ["sources' own aclose never suspends or fails", "sync iterables have nothing to release",
                "a generator-based tool closed before its first step runs no code (language semantics): sources need "
                "not be closed then, except for handles that advertise eager closing (chain, tee, groupby)"]
@@ -158,7 +159,7 @@ def run_iter(case, stats):
     viols, sigs, evals = [], [], 0
     head = f"{tool} {spec['params']} srcs={spec['srcs']} flav={flav}"
 
-    def judge(side, scenario, advanced):
+    def judge(side, scenario, advanced, flav=flav):
         nonlocal evals
         evals += 1
         stats["scenarios"] += 1
@@ -189,6 +190,21 @@ def run_iter(case, stats):
                               steps=spec.get("steps"))
         if side.term and side.term[0] == "raise":
             judge(side, ("notcallable", side.term[1]), True)
+    # one of several inputs is not iterable at all (a value handed over by mistake): whenever the tool - created and
+    # advanced like any other - reports that, it has ended and lets go of the inputs it was given
+    if len(flav) >= 2 and tool != "chain_from_iterable":
+        for p in range(len(flav)):
+            bad = list(flav)
+            bad[p] = "not_iterable"
+            try:
+                side = run_async_side(spec, flavours=bad, fn_flavours=fnfl, log=False, outer_flavour=outer,
+                                      steps=spec.get("steps"), close_after=True)
+            except TypeError:
+                stats["not_iterable_argument_refused_at_construction"] += 1
+                continue
+            if side.term and side.term[0] == "raise" and side.term[1] == "TypeError" and side.handle is not None:
+                stats["not_iterable_argument_runs"] += 1
+                judge(side, ("notiterable", p), True, bad)
     # early close after j items
     top = min(nout + 1, 6) if tool != "cycle" else 5
     for j in range(0, top + 1):
